@@ -808,6 +808,8 @@ def exec_diff(case, ns):
 
 def judge_diff(case, f):
     ns, st = f["ns"], f["status"]
+    if "hint" in f["printed"]:
+        return None if st == 1 else "yaml-diff reported a usage or load error but exited %s" % (st,)
     if f["actions"] is None:
         return None if st != 0 else "yaml-diff exited 0 without comparing two documents"
     if isinstance(st, tuple):
@@ -863,7 +865,9 @@ def parse_dump(text):
         return True, [plain(d) for d in docs]
     try:
         yaml = E["Parsers"].get_yaml_editor()
-        docs = list(yaml.load_all(text))
+        with warnings.catch_warnings():
+            warnings.simplefilter("ignore")
+            docs = list(yaml.load_all(text))
     except Exception:  # noqa
         return None
     return False, [plain(d) for d in docs]
